@@ -34,6 +34,8 @@ def shards(tier: str, seed: int):
         out.append(["dhbig", h])
         # key lengths above 256 (groups whose announced key length is padded beyond the size of p: 257, 300 octets; RFC 5114 at 264)
         out += [["dhsmall", h, kl, 0, 2, 0, 300] for kl in (257, 300)]
+        # private keys much WIDER than the group's key length (512-bit exponents in a 2- / 4-octet group)
+        out += [["dhsmall", h, kl, 0, 2, 0, 200, 512] for kl in (2, 4)]
         out.append(["dhbig", h, 264])
     if tier == "quick":
         out += [["dhsmall", "SHA256", kl, 0, 1, 0, 65536] for kl in (2, 4)]
@@ -286,8 +288,10 @@ def run_shard(shard, tier, seed, acc) -> None:
     if kind == "nonce":
         shard_nonce(G, shard[1], seed, acc)
     elif kind == "dhsmall":
-        _, h, kl, g0, g1, e0, e1 = shard
-        shard_dh(G, h, seed, acc, kl, SMALL_P, SMALL_G, 16, kl * 8, range(g0, g1), range(e0, e1), "dhsmall")
+        _, h, kl, g0, g1, e0, e1 = shard[:7]
+        pb = shard[7] if len(shard) > 7 else 16
+        ephs = range(e0, e1) if pb == 16 else [e_ + (0x5A << (pb - 8)) + (e_ << 200) for e_ in range(e0, e1)]
+        shard_dh(G, h, seed, acc, kl, SMALL_P, SMALL_G, pb, kl * 8, range(g0, g1), ephs, "dhsmall" if pb == 16 else f"dhsmallw{pb}")
         acc.sample({"mode": "DH small group", "p": SMALL_P, "g": SMALL_G, "key_length": kl, "hash": h, "ephemeral": f"all {e1-e0} two-byte values"})
     elif kind == "dhbig":
         d = seams.Drbg(("C03big", seed))
@@ -318,8 +322,8 @@ def replay(case, seed, acc) -> None:
         return
     if k == "nonce":
         shard_nonce(G, case[1], seed, acc)
-    elif k in ("dhsmall",):
-        shard_dh(G, case[1], seed, acc, case[2], SMALL_P, SMALL_G, 16, case[2] * 8, [case[3]], [int(case[4])], "dhsmall")
+    elif k.startswith("dhsmall"):
+        shard_dh(G, case[1], seed, acc, case[2], SMALL_P, SMALL_G, 16 if k == "dhsmall" else int(k[8:]), case[2] * 8, [case[3]], [int(case[4])], k)
     elif k.startswith("dhbig"):
         shard_dh(G, case[1], seed, acc, case[2], gkdi.RFC5114_P, gkdi.RFC5114_G, 512, case[2] * 8, [case[3]], [int(case[4])], k)
     elif k == "ec":
